@@ -52,12 +52,41 @@ theorem split_usec (us : Nat) : ((us / 1000000 : Nat) : Int) * 1000000 + ((us % 
   omega
 
 
+/-! ## the conversion to milliseconds
+
+`C05.ceilMs` is the property's "rounded up to a millisecond" and has no upper limit.  The code's `tv2ms`
+(`Model.selectTimeout`) agrees with it below `INT_MAX / 1000` = 2147483 seconds and from there on returns
+2147483000 ms, which is no longer than the time asked for: `satMs`. -/
+
+/-- what `tv2ms` makes of `us` microseconds -/
+def satMs (us : Nat) : Int := if us < 2147483000000 then C05.ceilMs us else 2147483000
+
+/-- never longer than asked for -/
+theorem satMs_le (us : Nat) : satMs us ≤ C05.ceilMs us := by
+  unfold satMs C05.ceilMs
+  split <;> omega
+
+theorem satMs_nonneg (us : Nat) : 0 ≤ satMs us := by
+  unfold satMs C05.ceilMs
+  split <;> omega
+
+/-- zero only when nothing is left (no busy loop while time remains, no blocking once it has run out) -/
+theorem satMs_eq_zero (us : Nat) : satMs us = 0 ↔ us = 0 := by
+  unfold satMs C05.ceilMs
+  split <;> omega
+
+theorem satMs_lt {us : Nat} (h : us < 2147483000000) : satMs us = C05.ceilMs us := by
+  unfold satMs; rw [if_pos h]
+
+theorem satMs_ge {us : Nat} (h : 2147483000000 ≤ us) : satMs us = 2147483000 := by
+  unfold satMs; rw [if_neg (by omega)]
+
 /-- the timeout handed to `poll` for a timer due at `dl` µs when the clock reads `clock` µs:
-    `events_timer_min`'s difference pushed through `events_network_select`'s conversion is exactly
-    `ceilMs` of the time that is left (0 once the timer is due) -/
+    `events_timer_min`'s difference pushed through `events_network_select`'s conversion is `satMs` of
+    the time that is left (0 once the timer is due) -/
 theorem selectTimeout_timerDiff (clock dl : Nat) :
-    selectTimeout (some (timerDiff clock ((dl / 1000000 : Nat) : Int) ((dl % 1000000 : Nat) : Int))) = C05.ceilMs (dl - clock) := by
-  unfold timerDiff selectTimeout C05.ceilMs C05.INT_MAX
+    selectTimeout (some (timerDiff clock ((dl / 1000000 : Nat) : Int) ((dl % 1000000 : Nat) : Int))) = satMs (dl - clock) := by
+  unfold timerDiff selectTimeout satMs C05.ceilMs
   simp only
   split
   · -- already expired (strictly)
@@ -89,13 +118,13 @@ theorem timerDiff_spec (clock dl : Nat) :
   · split <;> simp only <;> omega
 
 theorem ceilMs_mono {a b : Nat} (h : a ≤ b) : C05.ceilMs a ≤ C05.ceilMs b := by
-  unfold C05.ceilMs C05.INT_MAX
-  split <;> split <;> omega
+  unfold C05.ceilMs
+  omega
 
 /-- the conversion to milliseconds of a normalised, non-negative `struct timeval` -/
 theorem selectTimeout_norm (sec usec : Int) (us : Nat) (h0 : 0 ≤ usec) (h1 : usec < 1000000)
-    (h : sec * 1000000 + usec = us) : selectTimeout (some (sec, usec)) = C05.ceilMs us := by
-  unfold selectTimeout C05.ceilMs C05.INT_MAX
+    (h : sec * 1000000 + usec = us) : selectTimeout (some (sec, usec)) = satMs us := by
+  unfold selectTimeout satMs C05.ceilMs
   simp only
   split <;> split <;> omega
 
@@ -109,9 +138,9 @@ theorem tvCarry_spec (sec usec : Int) (h0 : -1000000 < usec) (h1 : usec < 200000
     · simp only; omega
     · simp only; exact ⟨trivial, by omega, by omega⟩
 
-/-- `timeLeft` is `ceilMs` of what is left of the wait (nothing once `tstart + tv ≤ tnow`) -/
+/-- `timeLeft` is `satMs` of what is left of the wait (nothing once `tstart + tv ≤ tnow`) -/
 theorem timeLeft_eq (tv : Int × Int) (tstart tnow us : Nat) (h0 : 0 ≤ tv.2) (h1 : tv.2 < 1000000)
-    (h : tv.1 * 1000000 + tv.2 = us) : timeLeft tv tstart tnow = C05.ceilMs (tstart + us - tnow) := by
+    (h : tv.1 * 1000000 + tv.2 = us) : timeLeft tv tstart tnow = satMs (tstart + us - tnow) := by
   unfold timeLeft
   simp only
   obtain ⟨c1, c2, c3⟩ := tvCarry_spec (tv.1 - (((tnow / 1000000 : Nat) : Int) - ((tstart / 1000000 : Nat) : Int)))
